@@ -122,7 +122,7 @@ fn qrv_fresh(mode: PatternMatchMode, v: u8) -> QuantifyReturnValue<'static, F8, 
 
 /// QuantifyReturnValue::once: pushes ONE returner at the running index, then quantify(1, Exact); the stored value is
 /// SINGLE-USE: first request Some(v), every later request None (C02, C12).
-//@K props=C02,C12 tier=quick label=full feat=std fn=QuantifyReturnValue::once
+//@K props=C02,C03,C12 tier=quick label=full feat=std fn=QuantifyReturnValue::once
 #[kani::proof]
 #[kani::unwind(3)]
 #[kani::stub(core::mem::swap, swap_stub)] // steal(): chunked byte swap of pointer-carrying structs times out in CBMC
@@ -161,9 +161,9 @@ macro_rules! qrv_multi {
         }
     };
 }
-//@K props=C02,C12 tier=quick label=full feat=std fn=QuantifyReturnValue::n_times
+//@K props=C02,C03,C12 tier=quick label=full feat=std fn=QuantifyReturnValue::n_times
 qrv_multi!(qrv_n_times_is_repeatable, n_times, 0);
-//@K props=C02,C12 tier=quick label=full feat=std fn=QuantifyReturnValue::at_least_times
+//@K props=C02,C03,C12 tier=quick label=full feat=std fn=QuantifyReturnValue::at_least_times
 qrv_multi!(qrv_at_least_times_is_repeatable, at_least_times, 1);
 
 /// Drop for QuantifyReturnValue (unquantified `returns(v)` inside a stub): pushes the single-use returner, no quantification.
